@@ -38,7 +38,7 @@ REGISTRY = dict(
           "PARTIAL: 'no optimizer touches a target parameter' is a runtime monitor (tensor snapshots around every optimizer.step, parameter identity), not a theorem."),
     note=("Trusted: Coq 8.16.1 kernel (vm_compute, no native_compute), translate/py2coq.py + specs/polyak.py, harness/c08.py, Python/numpy/torch. "
           "Not verified: torch in-place kernels mul_/add(alpha) and float32 rounding (exact dyadic stream + tolerance 1e-6 stream), autograd, the off-policy learn loop that decides the train() calls "
-          "(its gradient-step counts are taken from the recorded calls). Known finding F9: SAC's gradient_step counter restarts in every train() call (Refuted/C08_sac_every_k_global.v). "
+          "(its gradient-step counts are taken from the recorded calls). Known findings: F9 `sac-target-interval-restarts-each-train-call` (SAC's gradient_step counter restarts in every train() call; Refuted/C08_sac_every_k_global.v) and F23 `td3-shared-target-features-extractor-updated-twice` (TD3/DDPG with share_features_extractor=True and a parametric extractor: the shared target extractor is polyak-updated by both calls of one update). "
           "All C08 theorems are closed under the global context (no axioms)."),
     technique="machine-checked proof in Coq (counter machines by induction, rational arithmetic) + regenerated-fragment interface lemmas + instrumented differential runs; runtime monitor for optimizer/target disjointness (partial)",
 )
